@@ -541,6 +541,13 @@ pub fn probe_c10(run: &Run, rng: &mut Rng, acc: &mut Acc) -> Vec<String> {
         }
     }
     let tripper = if !mons.is_empty() && rng.chance(2, 3) { rng.pick(&mons).clone() } else { sc.admin.clone() };
+    // every second probe has an ownership nomination pending when the breaker is tripped
+    if o.pending_owner.is_empty() && rng.chance(1, 2) {
+        let nominee = addr20(&sc.cfg.prefix, &format!("c10-nominee{}", rng.below(1000)));
+        if b.exec(&sc.admin, q, &json!({"transfer_ownership": {"new_owner": nominee}}).to_string(), &[]).ok {
+            acc.count("c10:halt_with_pending_owner");
+        }
+    }
     let mut a = b.clone();
     let obs_b = {
         let mut s2 = sc.clone();
